@@ -729,6 +729,17 @@ func (fr *Frame) havocModifies(names []string, env *Env, st *State, pc *Term) {
 			prefixes = append(prefixes, "ghost:"+strings.TrimPrefix(n, "ghost."))
 		case len(n) > 2 && n[1] == ':':
 			prefixes = append(prefixes, n)
+		case strings.HasPrefix(n, "deref(") && strings.HasSuffix(n, ")"):
+			// deref(p): what the pointer argument p (possibly boxed in an interface) points to
+			e, err := ParseSpecExpr(strings.TrimSuffix(strings.TrimPrefix(n, "deref("), ")"))
+			if err != nil {
+				panic(stopExec{"modifies: " + err.Error()})
+			}
+			var sv SV
+			if err := safeEval(func() { sv = env.eval(e) }); err != nil {
+				panic(stopExec{"modifies " + n + ": " + err.Error()})
+			}
+			fr.externDefaultHavoc([]Value{*sv.V}, st)
 		case strings.HasPrefix(n, "contents(") && strings.HasSuffix(n, ")"):
 			// contents(expr): the backing array of a slice-valued expression
 			e, err := ParseSpecExpr(strings.TrimSuffix(strings.TrimPrefix(n, "contents("), ")"))
@@ -1536,6 +1547,15 @@ func (w *World) computeModSets() {
 							}
 						}
 					}
+					if sc := c.StaticCallee(); sc != nil && !inRepo(sc) {
+						if ct, ok := w.Specs.Contracts[externName(sc)]; ok {
+							for _, n := range ct.Modifies {
+								if strings.HasPrefix(n, "deref(") {
+									hasExtContract = false // writes through a pointer argument: treat the arguments generically
+								}
+							}
+						}
+					}
 					if sc := c.StaticCallee(); (sc == nil || !inRepo(sc)) && !hasExtContract {
 						for _, a := range c.Args {
 							switch u := a.Type().Underlying().(type) {
@@ -1824,6 +1844,8 @@ func (fr *Frame) loopModSet(lp *Loop, st *State) *modSet {
 								out.names[n] = true
 							case strings.HasPrefix(n, "contents("):
 								out.names["E:"] = true
+							case strings.HasPrefix(n, "deref("):
+								fr.externArgMods(c, out)
 							}
 						}
 					} else {
